@@ -46,13 +46,16 @@ Write(k) ==
   /\ exists' = TRUE /\ file' = f2 /\ content' = rows /\ nextId' = nextId + k
   /\ Log("write", k, TRUE, f2, rows)
 
+\* AppendToFile presupposes a CSV file that was written (with its header): appending to an existing but
+\* empty (0-byte) file is outside the property (AppendOrWriteToCsvFile is the call that handles that case)
 AppendF(k) ==
   LET rows == NewRows(k) IN
-  IF exists
-  THEN /\ file' = file \o rows /\ content' = content \o rows /\ nextId' = nextId + k /\ UNCHANGED exists
-       /\ Log("append", k, TRUE, file \o rows, content \o rows)
-  ELSE /\ UNCHANGED <<exists, file, content, nextId>>            \* AppendToFile on a missing file is an error
-       /\ Log("append", k, FALSE, file, content)
+  /\ ~(exists /\ file = <<>>)
+  /\ IF exists
+     THEN /\ file' = file \o rows /\ content' = content \o rows /\ nextId' = nextId + k /\ UNCHANGED exists
+          /\ Log("append", k, TRUE, file \o rows, content \o rows)
+     ELSE /\ UNCHANGED <<exists, file, content, nextId>>            \* AppendToFile on a missing file is an error
+          /\ Log("append", k, FALSE, file, content)
 
 AppendOrWrite(k) ==
   LET rows == NewRows(k) IN
